@@ -354,7 +354,8 @@ def run(P, rep, tier):
                        'for every node of that kind and type; does not evaluate concrete operand values.')
     rep.assumptions += ['children leave their value per the register convention stated in codegen.c load(): sub-int values extended to 32 bits, upper half undefined',
                         'instruction semantics per Intel SDM for the mnemonics chibicc emits (sa/x86.py)', 'typing relation of add_type (operands already converted to the common type)',
-                        'R01.14/R01.15 evaluate the trees the parser builds with a reference evaluator of the node language: ND_CAST converts per R01.5, arithmetic nodes compute in the width of their type per R01.6, ND_ASSIGN stores the low bytes of its right operand and yields it (a bit-field: the low `width` bits, re-extended; C04), ND_COMMA sequences']
+                        'R01.14/R01.15 evaluate the trees the parser builds with a reference evaluator of the node language: ND_CAST converts per R01.5, arithmetic nodes compute in the width of their type per R01.6, ND_ASSIGN stores the low bytes of its right operand and yields it (a bit-field: the low `width` bits, re-extended; C04), ND_COMMA sequences',
+                        'R01.19: a _Bool bit-field has width 1; the operand of an assignment has already been converted to the type of the left operand (R01.2), its value is any value of that type']
     r016(cg, rep)
     rep.rule('R01.5', 'every integer-to-integer (and to _Bool) conversion emits the extension/truncation the register convention requires for (from,to)', floor=90)
     r015(cg, rep, 'int')
@@ -409,6 +410,11 @@ def run(P, rep, tier):
     sub = Report('C07')
     c07.run(P, sub, tier)
     reissue(rep, 'R01.11', sub, 'a constant expression would have another value than the same expression evaluated at run time: ')
+    from ..lib_c01bf import r_value_convention
+    rep.rule('R01.19', 'register convention of narrow values: the value an assignment to a bit-field yields is the stored field value (C11 6.5.16p3), the value of a bit-field / of a char, short, int, long object is the '
+                       'object\'s value - each left in %rax in the convention of the expression\'s type (sizes 1, 2, 4: sign-/zero-extended to 32 bits; size 8: all 64 bits), for every storage unit x signedness x '
+                       'field width x position; decided by evaluating the final term of the emitted code on boundary operand values with every undefined register half / clobbered register / old memory byte set to junk', floor=900)
+    r_value_convention(cg, rep, 'R01.19')
     from .c03 import r_logic
     rep.rule('R01.10', '&& and ||: the left operand is evaluated and tested first, the right operand only when it decides the result, each operand is compared with zero at its own type and width, and the result is the int 0 or 1', floor=8)
     r_logic(cg, rep, 'R01.10')
